@@ -81,6 +81,8 @@ type Scenario struct {
 	// protocol's standard response parser explicitly (ParseResponseFunc set, AsProtocolErrorFunc left nil). The client must behave
 	// exactly like one configured without it.
 	ExplicitParser bool `json:"explicit_parser,omitempty"`
+	// PriorRepeat > 1: the earlier call is made this many times in a row (e.g. a run of timeouts)
+	PriorRepeat int `json:"prior_repeat,omitempty"`
 	// PriorReq: the earlier call (Prior) sends this request instead of Req
 	PriorReq *spec.Req `json:"prior_req,omitempty"`
 }
@@ -318,26 +320,37 @@ func Run(sc Scenario) (out Outcome) {
 		case "ioerr":
 			pev = []xport.Event{{Kind: "data", N: len(full) / 2}, {Kind: "ioerr", N: 0}}
 		}
-		script.Reset(full, pev, false)
-		pch := make(chan struct{})
 		var priorResp packet.Response
-		go func() {
-			defer func() { _ = recover(); close(pch) }()
-			if sc.Prior == "nil-request" {
-				// an earlier call with a nil request (fails immediately) must leave the client usable
-				preq = nil
+		reps := sc.PriorRepeat
+		if reps < 1 {
+			reps = 1
+		}
+		for rep := 0; rep < reps; rep++ {
+			script.Reset(full, append([]xport.Event(nil), pev...), false)
+			pch := make(chan struct{})
+			var ppanic interface{}
+			go func() {
+				defer func() { ppanic = recover(); close(pch) }()
+				if sc.Prior == "nil-request" {
+					// an earlier call with a nil request (fails immediately) must leave the client usable
+					preq = nil
+				}
+				r, err := do(context.Background(), preq)
+				if err == nil && !cat.IsNilValue(r) {
+					priorResp = r
+				}
+			}()
+			select {
+			case <-pch:
+			case <-time.After(HangCeiling):
+				out.Hung = true
+				out.PriorHung = true
+				return out
 			}
-			r, err := do(context.Background(), preq)
-			if err == nil && !cat.IsNilValue(r) {
-				priorResp = r
+			if ppanic != nil {
+				out.Panic = fmt.Sprintf("earlier call #%d (%s) on the same client panicked: %v", rep+1, sc.Prior, ppanic)
+				return out
 			}
-		}()
-		select {
-		case <-pch:
-		case <-time.After(HangCeiling):
-			out.Hung = true
-			out.PriorHung = true
-			return out
 		}
 		script.Reset(append([]byte(nil), sc.Stream...), append([]xport.Event(nil), sc.Events...), sc.WriteErr)
 		if priorResp != nil {
